@@ -238,4 +238,7 @@ WorkerScenarios ==
     {[worker |-> s.worker, state |-> s.state, cap |-> s.cap, stall |-> 0] : s \in BaseWorkerScenarios}
     \cup {[worker |-> s.worker, state |-> s.state, cap |-> s.cap, stall |-> 2600] :
             s \in {t \in BaseWorkerScenarios : t.state \in {"sending", "reading", "loginpending"} /\ t.cap \in {0, 1, 2, 3}}}
+    \* the correlator is merely busy for a long while (nobody cancels) and then receives again: the login blocked in the
+    \* hand-off must still arrive (C05); afterwards the worker is cancelled as in the other scenarios
+    \cup {[worker |-> "S", state |-> "sendinglate", cap |-> c, stall |-> 6500] : c \in {0, 1, 2, 3}}
 =============================================================================
